@@ -279,6 +279,40 @@ impl Memory {
         self.symbolic_offsets.keys().collect()
     }
 
+    /// Verification hook (H3): the generations stored at every constant offset,
+    /// oldest first, each with whether it was a single-byte store.
+    #[cfg(smlxl_storage_layout_extractor_verif)]
+    #[must_use]
+    pub fn verif_constant_offsets(&self) -> Vec<(usize, Vec<(RuntimeBoxedVal, bool)>)> {
+        self.constant_offsets
+            .iter()
+            .map(|(k, v)| {
+                let gens = v
+                    .iter()
+                    .map(|s| (s.data.clone(), s.size == MemStoreSize::Byte))
+                    .collect();
+                (*k, gens)
+            })
+            .collect()
+    }
+
+    /// Verification hook (H3): the generations stored at every symbolic offset,
+    /// oldest first, each with whether it was a single-byte store.
+    #[cfg(smlxl_storage_layout_extractor_verif)]
+    #[must_use]
+    pub fn verif_symbolic_offsets(&self) -> Vec<(RuntimeBoxedVal, Vec<(RuntimeBoxedVal, bool)>)> {
+        self.symbolic_offsets
+            .iter()
+            .map(|(k, v)| {
+                let gens = v
+                    .iter()
+                    .map(|s| (s.data.clone(), s.size == MemStoreSize::Byte))
+                    .collect();
+                (k.clone(), gens)
+            })
+            .collect()
+    }
+
     /// Consumes the memory and returns all values that are registered in it.
     #[must_use]
     pub fn all_values(self) -> Vec<RuntimeBoxedVal> {
